@@ -19,11 +19,14 @@ Fixpoint mismatches_from (i : nat) (l : list (config * list (directive * list ob
   end.
 Definition mismatches := mismatches_from 0.
 
-Fixpoint failing_from (i : nat) (mon : list (directive * list obs) -> bool)
-         (l : list (config * list (directive * list obs))) : list nat :=
+Fixpoint failing_from (i : nat) (mon : list (directive * list obs) -> list (Z * nat))
+         (l : list (config * list (directive * list obs))) : list (nat * list (Z * nat)) :=
   match l with
   | [] => []
-  | (_, tr) :: l' => if mon tr then failing_from (S i) mon l' else i :: failing_from (S i) mon l'
+  | (_, tr) :: l' => match mon tr with
+                     | [] => failing_from (S i) mon l'
+                     | vs => (i, vs) :: failing_from (S i) mon l'
+                     end
   end.
 Definition failing := failing_from 0.
 
